@@ -4,8 +4,7 @@ from ..rules import threads
 
 def run(ck):
     P = facts.load()
-    ck.not_decided = ('not decided: schedules themselves, races on user data reached through accessor callbacks, glyph-cache updates during drawing '
-                      '(the cache is an explicitly mutable argument), and the configuration without attribute((constructor)).')
+    ck.not_decided = ('not decided: schedules themselves, races on user data reached through accessor callbacks, glyph-cache updates during drawing (the cache is an explicitly mutable argument). A build without attribute((constructor)) is reported as a violation (lazy creation of the implementation table).')
     threads.r1_globals(ck, P)
     threads.r2_validate_readonly(ck, P)
     threads.r3_drawing_no_mutation(ck, P)
